@@ -51,8 +51,8 @@ CLAIMED = {
    note="Unbounded integer/fraction values; parsed scale 0..scale+2; integer literal text <= 3 (4) bytes (big.Int.SetString by its documented grammar). The lexer itself (see C37) and string/character escapes are outside. Type ranges in the checker come from the real sema type objects (snapshot of the real build).",
    design="3 C40"),
  "C47": dict(
-   text="revertibleRandom for the 8 native unsigned types and UInt128 (quick; UInt256/Word128/Word256 in thorough) with a fully symbolic modulus and a generator stub returning arbitrary bytes: result < modulus, each candidate is exactly the fresh bytes reduced mod 2^bitlen(m-1), the minimal number of bytes is drawn, a candidate is accepted iff <= m-1, zero modulus fails, and without modulus all bits of the type come from one draw.",
-   note="At most 2 (thorough 3) draws per call are explored; later iterations start from the same kind of state. Exact uniformity follows on paper from the checked facts (stated in evidence). Termination with probability 1 is outside.",
+   text="revertibleRandom for the 8 native unsigned types and UInt128 (quick; Word128 and 3 draws in thorough) with a fully symbolic modulus and a generator stub returning arbitrary bytes: result < modulus, each candidate is exactly the fresh bytes reduced mod 2^bitlen(m-1), the minimal number of bytes is drawn, a candidate is accepted iff <= m-1, zero modulus fails, and without modulus all bits of the type come from one draw.",
+   note="At most 2 (thorough 3) draws per call are explored; later iterations start from the same kind of state. Exact uniformity follows on paper from the checked facts (stated in evidence). UInt256/Word256 (bit-vector queries of width 288 over 3 draws did not finish in 2 h on this machine) and termination with probability 1 are outside.",
    design="3 C47"),
  "C11": dict(
    text="For each of the 14 sized integer types plus Int/UInt and each of + - * / % and unary minus, the real interpreter method is executed symbolically (machine ints as mathematical integers with Go's wrap/truncation spelled out; big.Int by an exact model) and an SMT solver shows, for every operand pair of the full width, that the result equals the exact integer result or the failure is the right overflow/underflow/division-by-zero error.",
@@ -72,7 +72,7 @@ CLAIMED = {
    note="Sequences of <=3 (4) operations; Go's builtin map is modelled as an association list with symbolic key equality. The interval tree (draws from global math/rand, no native replay), 'few thousand operations' and key types other than integers are outside.",
    design="3 C51"),
  "C37": dict(
-   text="Lexer kernel: the real lexer.Lex and the whole token stream (Next() to EOF) on every byte string - all byte values incl. invalid UTF-8 - of <=2 (thorough 3) bytes alone, and after fixed prefixes that put the lexer into its modes with <=2 free bytes (string template, after a leading 0; thorough also after a fraction point and an arrow), <=3 (4) free bytes (string, line comment) or <=4 (5) free bytes (block comment), plus every 3..5 (6) bytes >= 0x80 alone / in a line comment / string / block comment: no crash and no internal error, every token and the EOF position inside the input, tokens contiguous in order and covering the input (unless lexing stopped at an error token), lines match offsets, columns match offsets in one convention (bytes or characters) for the whole stream; and a pooled lexer that lexed another text before (6 texts leaving mode, bracket count, position, cursor and tokens behind) yields, for an optional template opener plus 2 free bytes, exactly the tokens of a fresh lexer.",
+   text="Lexer kernel: the real lexer.Lex and the whole token stream (Next() to EOF) on every byte string - all byte values incl. invalid UTF-8 - of <=2 bytes alone (3 free bytes = 93 000 paths did not finish in 2 h), and after fixed prefixes that put the lexer into its modes with <=2 free bytes (string template, after a leading 0; thorough also after a fraction point and an arrow), <=3 free bytes (string; line comment: 4 in thorough) or <=4 free bytes (block comment), plus every 3..5 (6) bytes >= 0x80 alone / in a line comment / string / block comment: no crash and no internal error, every token and the EOF position inside the input, tokens contiguous in order and covering the input (unless lexing stopped at an error token), lines match offsets, columns match offsets in one convention (bytes or characters) for the whole stream; and a pooled lexer that lexed another text before (6 texts leaving mode, bracket count, position, cursor and tokens behind) yields, for an optional template opener plus 2 free bytes (quick: from 12 mode-sensitive characters; thorough: any byte), exactly the tokens of a fresh lexer.",
    note="Part of C37: the lexer only; parser and checker totality/positions are outside (a symbolic token stream/AST is out of reach). sync.Pool modelled as 'Get returns the last Put object, else New()'; unicode/utf8.DecodeRune runs from source. Two known findings (unterminated block comment content in no token; column drift after an empty string token), three defects fixed. A token limit that only triggers after > 500 000 tokens (seeded change C37-token-limit-checks-capacity) is beyond every bound.",
    design="3 C37"),
  "C44": dict(
